@@ -22,6 +22,11 @@ for d in sorted(glob.glob("/verif/seeded/*/")):
         rows.append((sid, h.get("head", ""), "not a valid change on HEAD (%s)" % why, title, ""))
         continue
     c = h.get("check", {})
+    when = h["head"]
+    if "exit" not in c and m.get("recheck", {}).get("exit") is not None:
+        c, when = m["recheck"], m["recheck"].get("head", "") + " (earlier evaluation)"
+    if "exit" not in c and m.get("check", {}).get("exit") is not None:
+        c, when = m["check"], "at delivery (earlier tree)"
     if "exit" not in c:
         rows.append((sid, h["head"], "confirmed, check not run", title, ""))
         continue
@@ -33,7 +38,7 @@ for d in sorted(glob.glob("/verif/seeded/*/")):
     else:
         outcome = "inconclusive (exit %s)" % c["exit"]
         by = "; ".join(re.sub(r"INCONCLUSIVE property=\S+ harness=", "", l)[:70] for l in c.get("inconclusive_lines", [])[:2])
-    rows.append((sid, h["head"], "%s, %ss" % (outcome, c.get("wall_s")), title, by))
+    rows.append((sid, when, "%s, %ss" % (outcome, c.get("wall_s")), title, by))
 
 print("| change | evaluated on | outcome of the registered quick check(s) | what it changes | reported by / reason |")
 print("|---|---|---|---|---|")
